@@ -649,6 +649,14 @@ impl Python {
                     _ => (format!("_{key}"), name),
                 }
             })
+            // two wire names can lead to the same member name (`Id` and `ID`, "a-b" and "a_b"):
+            // an Enum class cannot bind a name twice, so later ones get trailing underscores
+            .scan(HashSet::new(), |taken, (mut key, name)| {
+                while !taken.insert(key.clone()) {
+                    key.push('_');
+                }
+                Some((key, name))
+            })
             .collect::<Vec<(String, String)>>();
         let enum_type_class_name = format!("{}Types", shared.id.renamed);
         self.add_import("enum".to_string(), "Enum".to_string());
